@@ -129,8 +129,16 @@ CheckHelp(dl, c) ==
   IN df # {} => PrintT(ToJson([k |-> "DIFF", id |-> c.id, fields |-> df \cup HelpDiffParts(cfg, c.hn, c.res.help),
                                 exp |-> HelpDocOf(cfg, c.hn)]))
 
+(* Determinism-only cases: definitions the specification does not admit (two options sharing a key along one     *)
+(* root-to-leaf chain).  What the library does with them is not modelled; that it does the same every time is (C20).*)
+CheckND(c) ==
+  LET df == (IF c.res.panic # "" THEN {"panic"} ELSE {}) \cup (IF c.res.hang THEN {"hang"} ELSE {})
+            \cup (IF c.res.nondet THEN {"nondet"} ELSE {})
+  IN df # {} => PrintT(ToJson([k |-> "DIFF", id |-> c.id, fields |-> df, exp |-> [ndonly |-> TRUE]]))
+
 CheckCase(dl, c) ==
-  IF c.comp = "" THEN CheckParse(dl, c) ELSE IF c.comp = "help" THEN CheckHelp(dl, c) ELSE CheckComp(dl, c)
+  IF "ndonly" \in DOMAIN c THEN CheckND(c)
+  ELSE IF c.comp = "" THEN CheckParse(dl, c) ELSE IF c.comp = "help" THEN CheckHelp(dl, c) ELSE CheckComp(dl, c)
 
 (* One step consumes a definition line and every case recorded under it.   *)
 (* (One TLC state per case costs milliseconds of level synchronisation;    *)
